@@ -912,4 +912,86 @@ theorem extract_FEq (S S' : Song) (X : List Node) (j : Event) (k k' : Nat)
       have := (FEq.rfl' (hlt k' (Nat.lt_succ_self _) k) X).l d (d' + 1) false
       rwa [expL_inLoop _ d false true X hXb] at this
 
+
+/-! ## 6. track maps -/
+
+/-- every track of `S` is still a track of `S'`, equal up to replacing `X` by `X'` at any
+number of places -/
+def SongRel (X X' : List Node) (S S' : Song) : Prop :=
+  ∀ id evs, S.track? id = some evs → ∃ evs', S'.track? id = some evs' ∧ ERel X X' evs evs'
+
+abbrev Tracks := List (Nat × List Event)
+
+/-- two track lists with the same ids in the same order and pairwise related event lists -/
+inductive TracksRel (R : List Event → List Event → Prop) : Tracks → Tracks → Prop
+  | nil : TracksRel R [] []
+  | cons (id : Nat) {a b : List Event} {l l' : Tracks} : R a b → TracksRel R l l' →
+      TracksRel R ((id, a) :: l) ((id, b) :: l')
+
+theorem TracksRel.refl {R : List Event → List Event → Prop} (hR : ∀ l, R l l) : ∀ ts : Tracks, TracksRel R ts ts
+  | [] => .nil
+  | (id, a) :: l => .cons id (hR a) (TracksRel.refl hR l)
+
+theorem TracksRel.append {R : List Event → List Event → Prop} {a a' b b' : Tracks}
+    (h1 : TracksRel R a a') (h2 : TracksRel R b b') : TracksRel R (a ++ b) (a' ++ b') := by
+  induction h1 with
+  | nil => exact h2
+  | cons id hr _ ih => exact .cons id hr ih
+
+/-- one track replaced -/
+theorem TracksRel.one {R : List Event → List Event → Prop} (hR : ∀ l, R l l) (l1 l2 : Tracks) (tid : Nat)
+    {a b : List Event} (h : R a b) : TracksRel R (l1 ++ (tid, a) :: l2) (l1 ++ (tid, b) :: l2) :=
+  TracksRel.append (TracksRel.refl hR l1) (.cons tid h (TracksRel.refl hR l2))
+
+theorem TracksRel.lookup {R : List Event → List Event → Prop} {ts ts' : Tracks} (h : TracksRel R ts ts')
+    (id : Nat) : (ts.lookup id = none ∧ ts'.lookup id = none) ∨
+      ∃ a b, ts.lookup id = some a ∧ ts'.lookup id = some b ∧ R a b := by
+  induction h with
+  | nil => left; simp [List.lookup]
+  | cons k hr _ ih =>
+    by_cases hk : id = k
+    · right; subst hk; exact ⟨_, _, by simp [List.lookup], by simp [List.lookup], hr⟩
+    · have : (id == k) = false := by simpa using hk
+      simpa [List.lookup, this] using ih
+
+theorem lookup_insert_ne (m1 m2 : Tracks) (nid : Nat) (v : List Event) (id : Nat) (h : id ≠ nid) :
+    (m1 ++ (nid, v) :: m2).lookup id = (m1 ++ m2).lookup id := by
+  have : (id == nid) = false := by simpa using h
+  simp [List.lookup_append, List.lookup, this]
+
+theorem lookup_insert_eq (m1 m2 : Tracks) (nid : Nat) (v : List Event)
+    (h : (m1 ++ m2).lookup nid = none) : (m1 ++ (nid, v) :: m2).lookup nid = some v := by
+  rw [List.lookup_append] at h ⊢
+  cases h1 : m1.lookup nid with
+  | some x => simp [h1] at h
+  | none => simp [List.lookup]
+
+theorem SongRel.of_tracks {X X' : List Node} {S S' : Song}
+    (h : TracksRel (ERel X X') S.tracks S'.tracks) : SongRel X X' S S' := by
+  intro id evs he
+  rcases h.lookup id with ⟨h1, _⟩ | ⟨a, b, h1, h2, hr⟩
+  · simp [Song.track?, h1] at he
+  · simp only [Song.track?, h1, Option.some.injEq] at he
+    subst he
+    exact ⟨b, h2, hr⟩
+
+/-- the rewritten track list with a fresh track inserted anywhere -/
+theorem SongRel.of_tracks_insert {X X' : List Node} {S S' : Song} {m1 m2 : Tracks} {nid : Nat} {v : List Event}
+    (h : TracksRel (ERel X X') S.tracks (m1 ++ m2)) (hS' : S'.tracks = m1 ++ (nid, v) :: m2)
+    (hfresh : S.track? nid = none) :
+    SongRel X X' S S' ∧ S'.track? nid = some v := by
+  constructor
+  · intro id evs he
+    have hne : id ≠ nid := by
+      intro h; subst h; simp [hfresh] at he
+    rcases h.lookup id with ⟨h1, _⟩ | ⟨a, b, h1, h2, hr⟩
+    · simp [Song.track?, h1] at he
+    · simp only [Song.track?, h1, Option.some.injEq] at he
+      subst he
+      exact ⟨b, by simp only [Song.track?, hS', lookup_insert_ne _ _ _ _ _ hne, h2], hr⟩
+  · rcases h.lookup nid with ⟨_, h2⟩ | ⟨a, b, h1, _, _⟩
+    · simp only [Song.track?, hS']
+      exact lookup_insert_eq _ _ _ _ h2
+    · simp [Song.track?, h1] at hfresh
+
 end Ctrmml.Rewrite
